@@ -26,6 +26,7 @@ def dstep (s : DSt) (toks : List String) : DSt × String :=
   | "pt" :: r => (s, EventsSpec.checkPT r)
   | "hw" :: r => (s, EventsSpec.checkHW r)
   | "hc" :: r => (s, EventsSpec.checkHC r)
+  | "vc" :: _ => (s, "begun")   -- concurrent Listener creation: the round follows as `vn` lines
   | _ => (s, "bad-op")
 
 def main : IO Unit := Hive.Proto.run dinit dstep
